@@ -436,6 +436,14 @@ def replay(path):
     rp = json.load(open(path))["replay"]
     chk = core.Check("C15", "quick", "model_checking")
     bindir = core.cargo_build(bins=["iohelp"])
+    if rp.get("mode") in ("print", "pipe"):
+        # these runs depend on signal timing: re-run the whole mode with the same seed and judge again
+        print("recorded:", json.dumps(rp["record"]))
+        run_print(chk, bindir, "quick")
+        for v in chk.violations:
+            print("re-run rejected:", v.what)
+        print("verdict:", "REJECTED again" if chk.violations else "not reproduced in this re-run (timing dependent)")
+        return 1 if chk.violations else 0
     outs = run_driver(chk, bindir, [rp["case"]], "replay")
     bad, conf = judge(chk, [rp["case"]], outs, "replay")
     print("case:", json.dumps(rp["case"]))
